@@ -176,6 +176,16 @@ func e2eDatagrams() [][]byte {
 		add(rDomain, []byte{0, 0xFF, ':', '%', ' '}, pl)
 	}
 	add(rIPv4, []byte{8, 8, 8, 8}, 60000)
+	// destinations the relay knows by name: the virtual DNS address, on the ordinary session path
+	// (any port; port 53 too, since this relay has no DNS handler) must be relayed to as written
+	for _, pl := range []int{0, 12, 600} {
+		add(rIPv4, []byte{10, 0, 0, 1}, pl)
+		add(rDomain, []byte("10.0.0.1"), pl)
+		add(rIPv6, []byte{0, 0, 0, 0, 0, 0, 0, 0, 0, 0, 0xFF, 0xFF, 10, 0, 0, 1}, pl)
+		add(rIPv4, []byte{119, 29, 29, 29}, pl)
+		out = append(out, refBuildUDP(rIPv4, []byte{10, 0, 0, 1}, 53, fill(pl+1, 53)))
+		out = append(out, refBuildUDP(rIPv4, []byte{9, 9, 9, 9}, 53, fill(pl+1, 54)))
+	}
 	return out
 }
 
@@ -544,6 +554,7 @@ func judgeAdapterOnce(stream []byte, sequential bool) *failure {
 
 func checkAdapterCase(t vkit.TB, c Case) bool {
 	seq := c.Chunk.Name == "sequential"
+	vkit.Journal("adapter", c) // a panic in the adapter's connection goroutine kills the process
 	if f := judgeAdapter(c.Stream, seq); f != nil {
 		vkit.Violation(t, f.key, f.detail, c)
 		vkit.Case("known:"+f.key, false, "")
@@ -567,7 +578,7 @@ func TestLegacyAdapterLoopback(t *testing.T) {
 	for _, ver2 := range []byte{5, 4} {
 		for _, cmd := range []byte{0, 1, 2, 3, 255} {
 			for _, atyp := range []byte{0, 1, 3, 4, 5} {
-				for _, dlen := range []int{1, 63, 255} {
+				for _, dlen := range []int{0, 1, 2, 63, 254, 255} {
 					if atyp != 3 && dlen != 1 {
 						continue
 					}
@@ -583,6 +594,10 @@ func TestLegacyAdapterLoopback(t *testing.T) {
 				}
 			}
 		}
+	}
+	for _, name := range []string{"", ".", "..", "a.", "example.com.", "127.0.0.1.", "a..", string([]byte{0}), string([]byte{'.', 0})} {
+		req := append([]byte{5, 1, 0, 3, byte(len(name))}, name...)
+		streams = append(streams, append(append([]byte(nil), g...), append(req, 0x1F, 0x90)...))
 	}
 	n = 0
 	for _, s := range streams {
